@@ -113,6 +113,9 @@ def run_behaviour(acts, baseline, tag, short=None):
         if act["op"] == "station":
             f = create_station(name, STATIONS[nst % len(STATIONS)], parent_frame=frames[ids[act["parent"] - 1]])
             nst += 1
+        elif act["op"] == "user":
+            # a user-defined frame: existing axes about an existing centre, under a name of its own
+            f = fr.Frame(name, frames[ids[act["parent"] - 1]].orientation, frames[ids[act["ref"] - 1]].center)
         else:
             rframe = frames[ids[act["ref"] - 1]]
             ref = StateVector(REF, DATE, "cartesian", fr.EME2000).copy(frame=rframe)
@@ -140,7 +143,7 @@ def main(inp, outp):
         pid = os.fork()
         if pid == 0:
             os.close(r)
-            short = [None, "TCe", "EMI", "o2R"][i % 4]
+            short = [None, "TCeWq", "EMIsx", "o2RGj"][i % 4]
             try:
                 res = run_behaviour(acts, baseline, f"b{i}", short)
             except (ValueError, KeyError, AttributeError, RuntimeError) as e:
